@@ -141,12 +141,11 @@ func VH_C20_addr() {
 		addr = &net.UDPAddr{IP: net.IP(raw), Port: port}
 	case 2:
 		raw = verifBytes("ip", 16)
+		// a zone names the interface, not the host: the address is classified by its IP
 		addr = &net.UDPAddr{IP: net.IP(raw), Port: port, Zone: zone}
-		parsable = zone == ""
 	case 3:
 		raw = verifBytes("ip", 16)
 		addr = &net.TCPAddr{IP: net.IP(raw), Port: port, Zone: zone}
-		parsable = zone == ""
 	case 4:
 		addr = verifBadAddr{"no-port-here"}
 		parsable = false
